@@ -12,6 +12,7 @@ import (
 	"sort"
 	"strconv"
 	"sync"
+	"sync/atomic"
 	"time"
 
 	"github.com/datastax/go-cassandra-native-protocol/client"
@@ -36,9 +37,10 @@ import (
 func init() { subcommands["conc"] = concMain }
 
 type concOp struct {
-	Op   string `json:"op"`
-	Id   int    `json:"id"`
-	Last bool   `json:"last"`
+	Op    string `json:"op"`
+	Id    int    `json:"id"`
+	Last  bool   `json:"last"`
+	Owner string `json:"owner"`
 }
 
 type concParams struct {
@@ -249,10 +251,114 @@ type concEv struct {
 }
 
 type concThread struct {
-	name   string
+	name     string
+	resume   chan struct{}
+	ev       chan concEv
+	free     bool // gates pass through
+	wc       *concWalkCtx
+	expectOK atomic.Bool // (expire) the model says a timer goroutine is waiting
+}
+
+// concTimer is a timer goroutine of the library parked at its gate: it has seen its deadline pass (the handler of a
+// program with "expire" operations has a read timeout of 1 ns) and goes on only when the schedule says so.
+type concTimer struct {
+	req    client.InFlightRequest
 	resume chan struct{}
-	ev     chan concEv
-	free   bool // gates pass through
+	fired  chan struct{}
+}
+
+// concWalkCtx is what the goroutines of one forced execution share.
+type concWalkCtx struct {
+	mu       sync.Mutex
+	timers   []*concTimer
+	finished bool
+	reqOf    map[string]client.InFlightRequest // "thread/operation number" -> the request that send returned
+	gids     []int64
+}
+
+func (wc *concWalkCtx) takeTimer(req client.InFlightRequest, wait time.Duration) *concTimer {
+	deadline := time.Now().Add(wait)
+	for {
+		wc.mu.Lock()
+		for i, tg := range wc.timers {
+			if tg.req == req {
+				wc.timers = append(wc.timers[:i:i], wc.timers[i+1:]...)
+				wc.mu.Unlock()
+				return tg
+			}
+		}
+		wc.mu.Unlock()
+		if time.Now().After(deadline) {
+			return nil
+		}
+		time.Sleep(200 * time.Microsecond)
+	}
+}
+
+// finish lets every timer goroutine still parked (and any that arrives later) go on.
+func (wc *concWalkCtx) finish() {
+	wc.mu.Lock()
+	wc.finished = true
+	for _, tg := range wc.timers {
+		close(tg.resume)
+	}
+	wc.timers = nil
+	gids := wc.gids
+	wc.mu.Unlock()
+	for _, gid := range gids {
+		concRegistry.Delete(gid)
+	}
+}
+
+var concTimerOf sync.Map // goroutine id of a timer goroutine -> *concTimer
+
+// parentGoroutineID reads "created by ... in goroutine N" from the calling goroutine's own stack.
+func parentGoroutineID() int64 {
+	buf := make([]byte, 8192)
+	n := runtime.Stack(buf, false)
+	b := buf[:n]
+	i := bytes.LastIndex(b, []byte(" in goroutine "))
+	if i < 0 {
+		return -1
+	}
+	b = b[i+len(" in goroutine "):]
+	j := 0
+	for j < len(b) && b[j] >= '0' && b[j] <= '9' {
+		j++
+	}
+	id, _ := strconv.ParseInt(string(b[:j]), 10, 64)
+	return id
+}
+
+// concGateReq is client.VerifGateReq: the gates of a request's timer goroutine (created by the goroutine of the model
+// thread whose send or page delivery armed the timer).
+func concGateReq(point string, req client.InFlightRequest) {
+	switch point {
+	case "timer.fire":
+		v, ok := concRegistry.Load(parentGoroutineID())
+		if !ok {
+			return
+		}
+		wc := v.(*concThread).wc
+		tg := &concTimer{req: req, resume: make(chan struct{}), fired: make(chan struct{}, 1)}
+		wc.mu.Lock()
+		if wc.finished {
+			wc.mu.Unlock()
+			return
+		}
+		wc.timers = append(wc.timers, tg)
+		wc.mu.Unlock()
+		concTimerOf.Store(goroutineID(), tg)
+		<-tg.resume
+	case "timer.fired":
+		gid := goroutineID()
+		if v, ok := concTimerOf.Load(gid); ok {
+			concTimerOf.Delete(gid)
+			tg := v.(*concTimer)
+			tg.fired <- struct{}{}
+			<-tg.resume
+		}
+	}
 }
 
 var concRegistry sync.Map // goroutine id -> *concThread
@@ -295,6 +401,7 @@ type concTLine struct {
 	Mark   int         `json:"mark"`
 	Ok     bool        `json:"ok"`
 	Rid    int         `json:"rid"`
+	Owner  string      `json:"owner,omitempty"`
 }
 
 // concObsLine is the last line of a history: the final observation.
@@ -328,7 +435,18 @@ func concMark(threadIdx, k int) int { return (threadIdx+1)*100 + k }
 func runConcWalk(p concParams, g *concGraph, walk []int, names []string) (res concResult) {
 	ctx, cancel := context.WithCancel(context.Background())
 	defer cancel()
-	h := client.VerifNewInFlightHandler(ctx, p.N, p.MaxPending, time.Hour)
+	timeout := time.Hour
+	for _, prog := range p.Progs {
+		for _, op := range prog {
+			if op.Op == "expire" {
+				// every timer goroutine sees its deadline pass at once and waits at its gate for the schedule
+				timeout = time.Nanosecond
+			}
+		}
+	}
+	h := client.VerifNewInFlightHandler(ctx, p.N, p.MaxPending, timeout)
+	wc := &concWalkCtx{reqOf: map[string]client.InFlightRequest{}}
+	defer wc.finish()
 	tidx := map[string]int{}
 	for i, n := range names {
 		tidx[n] = i
@@ -343,13 +461,15 @@ func runConcWalk(p concParams, g *concGraph, walk []int, names []string) (res co
 	}
 	var acc []accepted
 	for _, name := range names {
-		th := &concThread{name: name, resume: make(chan struct{}), ev: make(chan concEv, 1)}
+		th := &concThread{name: name, resume: make(chan struct{}), ev: make(chan concEv, 1), wc: wc}
 		threads[name] = th
 		prog := p.Progs[name]
 		go func() {
 			gid := goroutineID()
 			concRegistry.Store(gid, th)
-			defer concRegistry.Delete(gid)
+			wc.mu.Lock()
+			wc.gids = append(wc.gids, gid) // unregistered when the walk is over: timer goroutines look their creator up
+			wc.mu.Unlock()
 			mine := map[int]client.InFlightRequest{} // operation number -> the request that send returned
 			for k, op := range prog {
 				<-th.resume
@@ -367,6 +487,9 @@ func runConcWalk(p concParams, g *concGraph, walk []int, names []string) (res co
 						ev = concEv{ret: true, ok: err == nil, req: req, err: err}
 						if err == nil {
 							mine[k+1] = req
+							wc.mu.Lock()
+							wc.reqOf[th.name+"/"+strconv.Itoa(k+1)] = req
+							wc.mu.Unlock()
 						}
 					case "recv":
 						ev = concEv{ret: true}
@@ -391,6 +514,23 @@ func runConcWalk(p concParams, g *concGraph, walk []int, names []string) (res co
 					case "close":
 						h.Close()
 						ev = concEv{ret: true, ok: true}
+					case "expire":
+						ev = concEv{ret: true}
+						wc.mu.Lock()
+						req := wc.reqOf[op.Owner+"/"+strconv.Itoa(op.Id)]
+						wc.mu.Unlock()
+						if req != nil {
+							wait := 30 * time.Millisecond
+							if th.expectOK.Load() {
+								wait = 10 * time.Second
+							}
+							if tg := wc.takeTimer(req, wait); tg != nil {
+								tg.resume <- struct{}{} // timer.fire -> inFlightRequest.close(timeout)
+								<-tg.fired
+								tg.resume <- struct{}{}
+								ev.ok = true
+							}
+						}
 					}
 				}()
 				th.ev <- ev
@@ -442,6 +582,8 @@ func runConcWalk(p concParams, g *concGraph, walk []int, names []string) (res co
 			l.Op = "C"
 		case "recv":
 			l.Op = "R"
+		case "expire":
+			l.Op, l.Owner = "X", op.Owner
 		}
 		res.lines = append(res.lines, l)
 	}
@@ -465,6 +607,7 @@ func runConcWalk(p concParams, g *concGraph, walk []int, names []string) (res co
 	for si, ei := range walk {
 		e := g.edges[ei]
 		th := threads[e.T]
+		th.expectOK.Store(e.R == "ok")
 		call(th)
 		ev, ok := step(th)
 		if !ok {
@@ -627,6 +770,7 @@ func concMain(args []string) int {
 	}
 	sort.Strings(names)
 	client.VerifGate = concGate
+	client.VerifGateReq = concGateReq
 	rnd := rand.New(rand.NewSource(*seedv))
 	var walks [][]int
 	exhaustive := g.paths[g.init] <= float64(*maxWalks)
